@@ -730,3 +730,8 @@ def r2_6(prog, rep):
     ok = d.get("self.common_terms") == "[term for term in terms if not isinstance(term, GroupSpecificTerm)]" and \
         d.get("self.group_terms") == "[term for term in terms if isinstance(term, GroupSpecificTerm)]"
     obl(rep, mi, mi.node, "R2.6", ok, "Model(*terms) keeps every given term, split into common and group-specific lists")
+
+
+from ..core import guard_rules  # noqa: E402
+
+guard_rules(globals())
